@@ -588,7 +588,7 @@ def main():
     ck.assumptions = ['exact reals (a value whose pre-rounding image is within 1e-6 of a tie may round either way in binary64: skipped by the replayer)',
                       'inputs NaN/inf-free; n <= 4 elements', 'monotonicity by three lemmas: executed term is clip(rne(F*(x-MU)+M)) with common F>=0; affine part monotone; round-clip monotone']
     bitss = (2, 4, 8) if not ck.thorough else (2, 3, 4, 5, 6, 7, 8)
-    ns = (1, 3) if not ck.thorough else (1, 2, 3, 4)
+    ns = (1, 3) if not ck.thorough else (1, 2, 3, 4, 6)
     ck.bounds = dict(bits=bitss, n=ns, stats_calc_num_samples='1, 2, n+5', period='symbolic integer (inductive step); -3..ncalls+2 unrolled for 6 (quick) / 8 calls')
     jobs = []
     for bits in bitss:
